@@ -10,13 +10,38 @@ from sim.sched import Scheduler, Task
 from sim.util import digest, exc_signature
 
 
+_MATERIALISED = {}
+
+
+def results_of(item):
+    """ContextResult.results as a list.  It is declared a list; if a stream hands out a one-shot
+    iterable instead, it is read once here (like a first consumer would) and that reading is kept -
+    what a second reading gives is checked separately (``readable_again``)."""
+    r = item.results
+    if isinstance(r, (list, tuple)):
+        return r
+    key = id(item)
+    if key not in _MATERIALISED or _MATERIALISED[key][0] is not item:
+        _MATERIALISED[key] = (item, list(r))
+    return _MATERIALISED[key][1]
+
+
+def readable_again(item):
+    """False when the results of a ContextResult cannot be read a second time."""
+    r = item.results
+    if isinstance(r, (list, tuple)):
+        return True
+    first = results_of(item)
+    return len(list(r)) == len(first)
+
+
 def describe_item(item):
     """Value-only description of a yielded item (no ids, no addresses)."""
     if isinstance(item, tuple) and item and item[0] == "qcdict":
         return {"qcdict": digest(dict_results_json(item[1]))}
     return {
         "sid": item.stream_id,
-        "res": [(r.package, r.test, pl.flags_json(r.results)) for r in item.results],
+        "res": [(r.package, r.test, pl.flags_json(r.results)) for r in results_of(item)],
         "subset": np.asarray(item.subset_indexes).astype(int).tolist(),
     }
 
@@ -143,7 +168,7 @@ def match_yields(yields, expected, arrays, times):
         for (item, _), e in zip(yields, expected):
             ent = e["entry"]
             if item.stream_id != ent["sid"] or (
-                item.results and (item.results[0].package, item.results[0].test) != (ent["module"], ent["test"])
+                results_of(item) and (results_of(item)[0].package, results_of(item)[0].test) != (ent["module"], ent["test"])
             ):
                 ok = False
                 break
@@ -158,11 +183,11 @@ def match_yields(yields, expected, arrays, times):
 
     for with_result in (True, False):
         for yi, (item, _) in enumerate(yields):
-            if bool(item.results) != with_result:
+            if bool(results_of(item)) != with_result:
                 continue
             cands = [ei for ei in free if expected[ei]["entry"]["sid"] == item.stream_id]
             if with_result:
-                pk, tt = item.results[0].package, item.results[0].test
+                pk, tt = results_of(item)[0].package, results_of(item)[0].test
                 cands = [ei for ei in cands if (expected[ei]["entry"]["module"], expected[ei]["entry"]["test"]) == (pk, tt)]
                 ex = [ei for ei in cands if exact(item, ei)]
                 ranked = (
@@ -196,7 +221,7 @@ def annotate_expected(scn, arrays, cfg=None):
     """expected calls + model window + the reference (direct) execution."""
     tbl = scn["table"]
     cfg = cfg or scn["config"]
-    exp = pl.expected_calls(cfg, set(tbl["cols"]))
+    exp = pl.expected_calls(cfg, pl.stream_id_universe(tbl))
     times = tbl["times"]
     for e in exp:
         w = cfg["contexts"][e["ctx"]].get("window")
